@@ -515,8 +515,55 @@ pub fn check_with_ending(v: &View, sc: Option<&Scenario>, quiescent: bool, t_end
                 kinds.sort();
                 kinds.dedup();
                 viol.push(Violation::new(prop, format!("operations-pending-at-quiescence:{}", kinds.join("+")), format!("{} operations never completed: {}", pending.len(), pending.join("; "))));
+                // C15: "graceful shutdown drains in-flight streams and then closes the connection"
+                let graceful_by: Vec<Side> = apis(v.evs()).filter(|(_, a)| a.op == Op::GracefulShutdown && a.phase == Phase::Ret).map(|(_, a)| a.side).collect();
+                if coop_run && !graceful_by.is_empty() && open_ops.values().any(|(_, a)| a.op == Op::ConnDone && graceful_by.contains(&a.side)) {
+                    viol.push(Violation::new("C15", "graceful-shutdown-never-completes", format!("cooperative scenario, graceful_shutdown() was called, every stream could drain, yet the connection future never completed; {} operations still waiting: {}", pending.len(), pending.join("; "))));
+                }
             } else {
                 stats.inc("pending_at_quiescence_not_judged");
+            }
+        }
+    }
+    // C15: in a cooperative, fault-free scenario with a graceful shutdown everything the peers exchange is legal
+    // (GOAWAY(2^31-1), shutdown PING, GOAWAY(last)): neither endpoint may answer with a connection error, and every
+    // stream the server had accepted runs to completion
+    if coop_run && quiescent {
+        let graceful = apis(v.evs()).any(|(_, a)| a.op == Op::GracefulShutdown && a.phase == Phase::Ret);
+        let abrupt = apis(v.evs()).any(|(_, a)| a.op == Op::AbruptShutdown);
+        if graceful && !abrupt {
+            stats.inc("c15.graceful_coop_scenarios");
+            let mut excused_error = false;
+            for d in 0..2usize {
+                // (an endpoint that has refused or reset streams ignores their late frames only for a limited
+                // period - zero for refused streams - and may then answer them with a connection error: RFC 9113
+                // 5.1 allows that, so only endpoints that never wrote a RST_STREAM are judged here)
+                let mut wrote_rst = false;
+                for fr in v.frames(d) {
+                    if let crate::wire::frame::Body::Rst { .. } = &fr.body {
+                        wrote_rst = true;
+                    }
+                    if let crate::wire::frame::Body::GoAway { last, code, .. } = &fr.body {
+                        if *code != 0 && wrote_rst {
+                            excused_error = true;
+                        }
+                        if *code != 0 && !wrote_rst {
+                            viol.push(Violation::new("C15", "connection-error-during-graceful-shutdown", format!("{} wrote GOAWAY(last={}, code={}) in a cooperative scenario whose only special event is graceful_shutdown()", if d == 0 { "client" } else { "server" }, last, code)));
+                        }
+                    }
+                }
+            }
+            for (idx, s) in &acc {
+                if *idx == 0 || s.sid == 0 {
+                    continue;
+                }
+                let accepted = apis(v.evs()).any(|(_, a)| a.side == Side::Server && a.op == Op::Accept && a.phase == Phase::Ret && a.sid == s.sid && matches!(a.res, Res::Ok));
+                if accepted && s.sid % 2 == 1 && !excused_error {
+                    stats.inc("c15.accepted_streams_judged");
+                    if let Some(e) = &s.resp_body.recv_error {
+                        viol.push(Violation::new("C15", "accepted-stream-failed-during-graceful-shutdown", format!("stream tag {} sid {} had been handed to the server application before the shutdown, yet its response failed at the client: {} (delivered {} of {})", idx, s.sid, e, s.resp_body.delivered, s.resp_body.submitted)));
+                    }
+                }
             }
         }
     }
